@@ -73,7 +73,7 @@ def check_all_notes(ex, repo, cache):
 
 class C05(C02):
     id = "C05"
-    families = [f for f in hist.FAMILIES if f not in ("destructive", "human_overwrites_ai")]
+    families = [f for f in hist.FAMILIES if f not in ("destructive", "human_overwrites_ai")] + ["fastpath"]
     quick_runs, thorough_runs = 1000, 8000
     quick_budget_s, thorough_budget_s = 170, 1800
     rule = ("one run = base commit + one scenario family (commits, rebase forms incl. -i, cherry-pick, amend, merge, "
